@@ -35,11 +35,11 @@ def parseLabel (known : List String) (j : Json) : R (Label String) := do
     let (err, rest) := splitErr text
     return .peerEmit err rest sp (isEvent known text sp || (← bad.getBool?)) (← optNat re)
   | [.str "rxRead"] => return .rxRead
-  | [.str "rxMatch", f] => return .rxMatch (← optNat f)
+  | [.str "rxMatch", f, tk] => return .rxMatch (← optNat f) (← (← arr tk).mapM (·.getNat?))
   | [.str "rxSetEvent"] => return .rxSetEvent
   | [.str "rxRequeue"] => return .rxRequeue
   | [.str "rxCleanPop"] => return .rxCleanPop
-  | [.str "rxCleanup", b] => return .rxCleanup (← b.getBool?)
+  | [.str "rxCleanup", b, tk] => return .rxCleanup (← b.getBool?) (← (← arr tk).mapM (·.getNat?))
   | [.str "closeBegin"] => return .closeBegin
   | [.str "closeTxq"] => return .closeTxq
   | [.str "closeActive"] => return .closeActive
